@@ -556,6 +556,44 @@ int main(int argc, char **argv) {
             };
             plan.stages.push_back(st);
         }
+        // (f2) exponents written with leading zeros: the value is the one of the exponent without them
+        {
+            vx::Stage st;
+            st.name   = "zero-padded-exponents";
+            st.chunks = 16;
+            st.fn     = [](int64_t chunk, vx::Ctx &ctx) {
+                static Bufs      b;
+                std::vector<int> exps;
+                for (int e = 0; e <= 30; e++) {
+                    exps.push_back(e);
+                }
+                for (int e : {99, 100, 101, 290, 300, 307, 308, 309, 323, 324, 330}) {
+                    exps.push_back(e);
+                }
+                int64_t n = 0;
+                for (int zeros = 0; zeros <= 25; zeros++) {
+                    for (int e : exps) {
+                        if ((n++ % 16) != chunk) {
+                            continue;
+                        }
+                        for (const char *m : {"1", "2.5", "-12.25", "0.001", "0", "123456789012345678901", "9007199254740993"}) {
+                            for (const char *es : {"e", "E+", "e-"}) {
+                                if (!ctx.next()) {
+                                    continue;
+                                }
+                                std::string t = std::string(m) + es + std::string((size_t)zeros, '0') + std::to_string(e);
+                                if (ctx.want_desc()) {
+                                    ctx.describe(t);
+                                }
+                                ctx.acc.count("states");
+                                check_all(t, b, ctx, "f2", (zeros & 1) == 0);
+                            }
+                        }
+                    }
+                }
+            };
+            plan.stages.push_back(st);
+        }
         // (g) long significands whose extra digits are taken back by the exponent: d[.d..] followed by z zeros and e-(x+z);
         //     0.<z zeros>d..e+(x+z); the written exponent goes far beyond +-324 while the value stays ordinary
         {
